@@ -285,8 +285,13 @@ class GeometricInterrupts(InterruptsBase):
         t_min = max(t, t_min)
         # estimate (fractional) iteration number of current time point
         i = np.log(t_min / self.scale) / np.log(self.factor)
-        # round up the fractional estimate and get associated interrupt time
-        self._t_next = self.scale * self.factor ** np.ceil(i)
+        # round up the fractional estimate; the logarithm is only accurate to round-off, so
+        # step back if the previous member of the sequence has not been passed yet
+        k = np.ceil(i)
+        if self.scale * self.factor ** (k - 1) >= t_min:
+            k -= 1
+        # get associated interrupt time
+        self._t_next = self.scale * self.factor**k
         return self._t_next
 
 
